@@ -208,6 +208,16 @@ def handler(case):
             bad = {k: v for k, v in counts.items() if v != nit}
             if not counts:
                 viols.append(("files.none", f"{entry}: no Monte Carlo result files written"))
+            else:
+                # every documented end-of-iteration quantity of the system, every network, every load point and every EV park
+                NETQ = ["acc_p_energy_shed", "acc_q_energy_shed", "SAIFI", "SAIDI", "CAIDI", "ASAI", "ASUI", "ENS", "EV_Index", "EV_Interruption", "EV_Duration"]
+                BUSQ = ["acc_p_energy_shed", "acc_q_energy_shed", "avg_outage_time", "acc_outage_time", "interruption_fraction", "acc_interruptions"]
+                EVQ = ["acc_num_interruptions", "acc_exp_interruptions", "acc_exp_car_interruptions", "acc_interruption_duration", "acc_available_num_cars", "num_cars"]
+                need = [(o.name, q) for o in [ps] + list(ps.child_network_list) for q in NETQ] + [(b.name, q) for b in ps.buses for q in BUSQ] \
+                    + [(os.path.join(b.name, b.ev_park.name), q) for b in ps.buses if b.ev_park is not None for q in EVQ]
+                missing = [f"{a}/{q}.csv" for a, q in need if os.path.join("monte_carlo", a, q + ".csv") not in counts]
+                if missing:
+                    viols.append(("files.missing", f"{entry}: {len(missing)} documented Monte Carlo files not written, e.g. monte_carlo/{missing[0]}"))
             if bad:
                 k = sorted(bad)[0]
                 viols.append(("files.rows", f"{entry}: {len(bad)} of {len(counts)} Monte Carlo files do not have one record per iteration, e.g. {k}: {bad[k]}"))
